@@ -121,6 +121,14 @@ m("shallow-copy", "_snapshot/generic_value.py", "    new = copy.deepcopy(obj)", 
 m("no-selfcheck", "_snapshot/generic_value.py", "    if not obj == new:", "    if False:", ["C17"], "unequal copies are recorded silently")
 
 
+# ---- C16
+m("set-sort-off", "_code_repr.py", "    set_values = list(map(repr, set_values))\n    if not is_sorted:\n        set_values = sorted(set_values)", "    set_values = list(map(repr, set_values))", ["C16", "C08"], "sets are emitted in iteration order")
+m("set-sort-by-hash", "_code_repr.py", "    if not is_sorted:\n        set_values = sorted(set_values)", "    if not is_sorted:\n        set_values = sorted(set_values, key=hash)", ["C16"], "non-orderable sets sorted by hash of their text")
+m("partial-order-revert", "_code_repr.py", "        is_sorted = all(a < b or a == b for a, b in zip(set_values, set_values[1:]))", "        is_sorted = True", ["C16"], "revert of the partial-order fix")
+m("noblack-different-tokens", "_format.py", "        return text\n\n    with warnings.catch_warnings():", "        return text.replace('frozenset()', 'frozenset([])')\n\n    with warnings.catch_warnings():", ["C16"], "without black a different expression is generated")
+m("format-cmd-dedent", "_format.py", '        return result.stdout.decode("utf-8")', '        return result.stdout.decode("utf-8").replace("True", "1")', ["C16"], "format-command path yields a different syntax tree (True -> 1)")
+
+
 def make_copy(mut):
     base = os.environ.get("VERIF_TMP") or ("/dev/shm" if os.path.isdir("/dev/shm") else tempfile.gettempdir())
     d = Path(tempfile.mkdtemp(prefix="mutant-", dir=base))
